@@ -291,7 +291,9 @@ func (c *simCmd) Run() error {
 	}
 
 	before := h.k.clone()
-	r.Logf("restore #%d (%d lines, %d txn)%s", h.restoresTotal, strings.Count(input, "\n"), ntxn, map[bool]string{true: " [fault injected]", false: ""}[injected])
+	if !h.quiet {
+		r.Logf("restore #%d (%d lines, %d txn)%s", h.restoresTotal, strings.Count(input, "\n"), ntxn, map[bool]string{true: " [fault injected]", false: ""}[injected])
+	}
 	if h.traceInput {
 		for _, l := range strings.Split(strings.TrimRight(input, "\n"), "\n") {
 			r.Logf("   | %s", l)
